@@ -206,6 +206,39 @@ def redundant_topo_variant(rng, nodes, k=1, allow_false=False):
     return nodes
 
 
+def raw_implies(a, b):
+    """a => b for two valid raw arrays over the same variable count, by a memoised product walk (independent of model and
+    library; linear in the number of reachable node pairs, any number of variables)"""
+    import sys
+    nv = a[0][0]
+    memo = {}
+    la, lb = len(a), len(b)
+
+    def var(nodes, p, n):
+        return nv if p < 2 or n == 1 else nodes[p][0]
+    stack = [(la - 1 if la > 1 else 0, lb - 1 if lb > 1 else 0)]
+    seen = set()
+    while stack:
+        p, q = stack.pop()
+        if (p, q) in seen:
+            continue
+        seen.add((p, q))
+        pa = p if la > 1 else 0
+        qb = q if lb > 1 else 0
+        if pa == 0 or qb == 1:
+            continue
+        if pa == 1 and qb == 0:
+            return False
+        va = nv if pa < 2 else a[pa][0]
+        vb = nv if qb < 2 else b[qb][0]
+        v = min(va, vb)
+        pl, ph = (a[pa][1], a[pa][2]) if va == v else (pa, pa)
+        ql, qh = (b[qb][1], b[qb][2]) if vb == v else (qb, qb)
+        stack.append((pl, ql))
+        stack.append((ph, qh))
+    return True
+
+
 def bdd_from_graph(nv, root, expand):
     """Canonical array (library layout: DFS post-order, high child first) of the function described by a state graph:
     expand(state) -> True | False | (var, low_state, high_state), variables increasing along edges.  Nodes are
